@@ -486,11 +486,13 @@ namespace pika {
                 "the runtime system is not active (did you already call pika::stop?)");
         }
 
+        PIKA_VERIF_POST("life.stop.enter", rt.get(), 0, 0);
         int result = rt->wait();
 
         rt->stop();
         rt->rethrow_exception();
 
+        PIKA_VERIF_POST("life.stop.exit", rt.get(), static_cast<std::uint64_t>(static_cast<std::uint32_t>(result)), 0);
         return result;
     }
 
